@@ -215,7 +215,7 @@ class IsaGen:
         rng = self.rng
         for f in range(rng.randint(1, 3)):
             mnem = rng.choice(["jmp", "bra", "call", "ldi", "b"]) + rng.choice(["", "", "w", "q"])
-            style = rng.choice(["typed", "assert", "rel"])
+            style = rng.choice(["typed", "assert", "rel", "posfence"])
             base = len(self.rules)
             op = rng.getrandbits(8)
             if style == "typed":
@@ -225,6 +225,17 @@ class IsaGen:
                     self.rules.append({"pat": [("lit", mnem), ("param", "a", (kind, w))],
                                        "prod": concat([lit_sized(rng, 8, (op + w) & 0xff), ("var", 0, ["a"])]),
                                        "size": 8 + w, "name": "c%d" % len(self.rules)})
+            elif style == "posfence":
+                # encodings selected by the *position* alone: blocks whose last expression is a constant but whose
+                # assertion depends on $ ({ assert($ < K), 0xaa } / { assert($ >= K), 0xbbbb })
+                k = rng.choice([2, 4, 8, 16, 32])
+                sizes = rng.choice([(8, 8), (8, 16), (16, 8)])
+                self.rules.append({"pat": [("lit", mnem)],
+                                   "prod": ("block", [("call", "assert", [("bin", "<", ("pc",), num(k))]), lit_sized(rng, sizes[0])]),
+                                   "size": sizes[0], "name": "c%d" % len(self.rules)})
+                self.rules.append({"pat": [("lit", mnem)],
+                                   "prod": ("block", [("call", "assert", [("bin", ">=", ("pc",), num(k))]), lit_sized(rng, sizes[1])]),
+                                   "size": sizes[1], "name": "c%d" % len(self.rules)})
             elif style == "assert":
                 # { assert(a < K) \n 0x.. @ a`8 }  vs  0x.. @ a`16
                 lim = rng.choice([0x10, 0x80, 0x100, 0x20])
